@@ -41,6 +41,7 @@ def shards(tier, seed):
     sel = (xn[:: max(1, len(xn) // 3)][:3] + lt[:1] + ts[:2]) if q else (xn[:: max(1, len(xn) // 8)][:8] + lt[:4] + ts[:: max(1, len(ts) // 6)][:6])
     for t in sel:
         out.append(("toy_%d_%d_%d" % t.curve.key(), dict(kind="toy", key=t.curve.key(), ndig=48 if q else 256)))
+    out.append(("near_recursion_limit", dict(kind="near_limit")))
     return out
 
 
@@ -92,6 +93,8 @@ def digests_for(n, rng):
 
 def run(ctx, name, kind, **kw):
     rng = ctx.rng
+    if kind == "near_limit":
+        return sigs.near_limit(ctx, rng, ["NIST521p", "NIST256p", "SECP160r1"], ['sign_det'])
     if kind == "small":
         for n in range(kw["lo"] + kw["part"], kw["hi"] + 1, kw["parts"]):
             ds = range(1, n) if n <= 40 else gen.boundary_scalars(n, rng, nrand=1)
